@@ -41,7 +41,7 @@ PROPS = {
                 state=kinds("A", "B", "S"), effects=eff("transfer", "slash"), errnames=True),
     "C04": dict(profiles=["bindings", "money"], monitors=["slashLaw", "supplyLaw", "depositBacked"],
                 state=kinds("B", "S"), effects=eff("slash"), errnames=False),
-    "C05": dict(profiles=["authority", "mixed"], monitors=["authority", "conservation"],
+    "C05": dict(profiles=["authority", "mixed", "modsvc"], monitors=["authority", "conservation"],
                 state=kinds("A"), effects=eff("transfer"), errnames=True),
     "C06": dict(profiles=["money", "lifecycle"], monitors=["issueLaw", "batchDebit", "lifecycle"],
                 state=kinds("RQ", "CX", "AB", "AI"), effects=eff("ev", "transfer"), errnames=False),
@@ -71,7 +71,7 @@ PROPS = {
                 state=kinds("Q", "CX", "RQ", "RS", "AI", "AB", "NQ", "XQ", "NH", "XH"), effects=eff(), errnames=False),
     "C19": dict(profiles=["genesis"], monitors=["genesisLaw", "escrowBacked", "indexes", "requests"], state=lambda l: True,
                 effects=eff("transfer"), errnames=False),
-    "C20": dict(profiles=["mixed", "authority"], monitors=["noPanic"], state=lambda l: True,
+    "C20": dict(profiles=["mixed", "authority", "modsvc"], monitors=["noPanic"], state=lambda l: True,
                 effects=lambda l: True, errnames=False),
 }
 
